@@ -264,7 +264,85 @@ func x01Family(ops []string) func(c *ctx) {
 	}
 }
 
+// x01Pipeline applies a random sequence of operations to the same layers; one event per layer and step, in one
+// shard, preceded by a "reset". The trace spec carries each layer's feature list from step to step.
+func x01Pipeline(c *ctx, idx int) {
+	shard := idx % c.shards
+	lg := &layerGeoms{ids: map[string]int{}}
+	tags := map[*geojson.Feature]int{}
+	simp := simplify.DouglasPeucker(0.5)
+	var layers mvt.Layers
+	for li := 0; li < 1+c.rng.Intn(3); li++ {
+		l := &mvt.Layer{Name: fmt.Sprintf("l%d", li), Version: 2, Extent: 4096}
+		for j := 0; j < c.rng.Intn(9); j++ {
+			op := []string{"clip", "simplify", "removeempty"}[c.rng.Intn(3)]
+			f := geojson.NewFeature(x01Geom(c, op, c.rng.Intn(3)%(map[string]int{"clip": 3, "simplify": 3, "removeempty": 2}[op])))
+			tags[f] = len(tags) + 1
+			l.Features = append(l.Features, f)
+		}
+		layers = append(layers, l)
+	}
+	c.emitTo(shard, map[string]interface{}{"k": "pipe", "op": "reset"})
+	for step := 0; step < 2+c.rng.Intn(4); step++ {
+		op := []string{"clip", "simplify", "removeempty"}[c.rng.Intn(3)]
+		var before [][]x01Feat
+		var want [][]int
+		for _, l := range layers {
+			bf, w := []x01Feat{}, []int{}
+			for _, f := range l.Features {
+				g := f.Geometry
+				x := x01Feat{Tag: tags[f], G: lg.id(g), Dim: -1}
+				if g != nil {
+					x.Dim = g.Dimensions()
+				}
+				var res orb.Geometry
+				switch op {
+				case "clip":
+					res = clip.Geometry(x01Box, orb.Clone(g))
+				case "simplify":
+					res = simp.Simplify(orb.Clone(g))
+				default:
+					res = g
+					if g != nil && ((x.Dim == 1 && planar.Length(g) >= 5) || (x.Dim == 2 && planar.Area(g) >= 9)) {
+						x.Big = 1
+					}
+				}
+				bf = append(bf, x)
+				w = append(w, lg.id(res))
+			}
+			before, want = append(before, bf), append(want, w)
+		}
+		setCurrent("mvt.Layers."+op+" (pipeline)", step)
+		site := guard(func() {
+			switch op {
+			case "clip":
+				layers.Clip(x01Box)
+			case "simplify":
+				layers.Simplify(simp)
+			default:
+				layers.RemoveEmpty(5, 9)
+			}
+		})
+		if site != "" {
+			c.emitTo(shard, panicEvent("mvt.Layers."+op, site, step))
+			return
+		}
+		for li, l := range layers {
+			out := []x01Feat{}
+			for _, f := range l.Features {
+				out = append(out, x01Feat{Tag: tags[f], G: lg.id(f.Geometry)})
+			}
+			c.emitTo(shard, map[string]interface{}{"k": "pipe", "op": op, "fn": "pipeline " + op, "layer": li + 1, "step": step, "feats": before[li], "want": want[li], "out": out, "nt": 1})
+		}
+	}
+}
+
 func init() {
+	register("mvtpipeline", func(c *ctx) {
+		for i := 0; i < c.pick(800, 16000); i++ {
+			x01Pipeline(c, i)
+		}
+	})
 	register("mvtlayerclip", x01Family([]string{"clip"}))
 	register("mvtlayer", x01Family([]string{"clip", "simplify", "removeempty"}))
 }
